@@ -178,7 +178,7 @@ def run_config(rep, exe, sc, name, integ, K, steps, addAt, quick, events, stats)
             else:
                 ev = {"cells": cells, "final": cells_of(o["final"], o["ftail"], ref), "k": o["k"], "K": K, "lens": lens,
                       "n": o["n"], "err": o["err"], "sig": 0,
-                      "exposedOK": o["dig"] == refdig[:o["n"]], "rn": o["rn"], "rOK": o["rdig"] == refdig[:max(o["rn"], 0)],
+                      "exposedOK": o["dig"] == refdig[:o["n"]] and not o.get("past"), "rn": o["rn"], "rOK": o["rdig"] == refdig[:max(o["rn"], 0)],
                       "versionAt": meta["versionAt"]}
             key = json.dumps(ev, sort_keys=True)
             if key not in classes:
